@@ -103,6 +103,8 @@ def tlc_stats(out):
 CONN_PREFIXES = tuple('{"e":"%s"' % k for k in ("reset", "cfg", "call", "cancel_all", "destroy", "cancel_op", "resolve", "resolve_end",
                                                      "attempt", "attempt_end", "fire"))
 
+KA_PREFIXES = ('{"e":"reset"', '{"e":"cfg"', '{"e":"c_write_end"')
+
 # ----------------------------------------------------------------- scenario execution + trace validation
 def _run_shard(args):
     binary, scripts, trace, tlcout = args
@@ -162,6 +164,22 @@ def _run_shard(args):
     if "REJECTED" in out4 or rc4 != 0:
         return dict(ok=False, err="trace not consumed by TraceConn (rc=%d): %s" % (rc4, out4[-2000:]))
     for line in out4.splitlines():
+        line = line.strip().strip('"')
+        if line.startswith("DEV "):
+            p = line.split()
+            dev.append((int(p[1]), int(p[2]), p[3]))
+    # keep-alive timing vs KeepAlive.tla (a PINGREQ is never earlier than the design schedules it, never with keep-alive 0)
+    ktrace = trace + ".ka"
+    with open(trace) as f, open(ktrace, "w") as g:
+        for l in f:
+            if l.startswith(KA_PREFIXES) or (l.startswith('{"e":"c_pkt"') and '"type":"PINGREQ"' in l) \
+               or (l.startswith('{"e":"b_send"') and '"type":"CONNACK"' in l) or (l.startswith('{"e":"h"') and '"update_session"' in l):
+                g.write(l)
+    rc5, out5 = tlc("TraceKeepAlive.tla", "TraceKeepAlive.cfg", env=dict(TRACE=ktrace), workers=1, timeout=3000, java_opts="-Xmx3g")
+    os.remove(ktrace)
+    if "REJECTED" in out5 or rc5 != 0:
+        return dict(ok=False, err="trace not consumed by TraceKeepAlive (rc=%d): %s" % (rc5, out5[-2000:]))
+    for line in out5.splitlines():
         line = line.strip().strip('"')
         if line.startswith("DEV "):
             p = line.split()
